@@ -36,6 +36,7 @@ pub enum Ev {
     None,
     Tuple(usize),
     U8(u8),
+    U32(u32),
     End,
     Other,
 }
@@ -91,13 +92,17 @@ impl<'a> Serializer for Rec<'a> {
         self.0.push(Ev::U8(v));
         Ok(())
     }
+    fn serialize_u32(self, v: u32) -> Result<(), E> {
+        self.0.push(Ev::U32(v));
+        Ok(())
+    }
     fn serialize_tuple(self, len: usize) -> Result<TupleRec<'a>, E> {
         self.0.push(Ev::Tuple(len));
         Ok(TupleRec(self.0))
     }
     other! {
         serialize_bool(bool); serialize_i8(i8); serialize_i16(i16); serialize_i32(i32); serialize_i64(i64);
-        serialize_u16(u16); serialize_u32(u32); serialize_u64(u64); serialize_f32(f32); serialize_f64(f64);
+        serialize_u16(u16); serialize_u64(u64); serialize_f32(f32); serialize_f64(f64);
         serialize_char(char); serialize_str(&str); serialize_bytes(&[u8]); serialize_none(); serialize_unit();
         serialize_unit_struct(&'static str); serialize_unit_variant(&'static str, u32, &'static str);
     }
@@ -296,6 +301,33 @@ macro_rules! de_h {
             }
             kani::assert(unsafe { DROPS == CREATED } && all_dead(0, $n + 2), "C17.visit_seq: every element read is dropped exactly once; no partially filled array escapes");
             kani::assert(s.polls <= $n + 1, "C17.visit_seq: reads at most N + 1 elements");
+            kani::cover!(true, "end reachable");
+        }
+    };
+}
+
+// elements wider than one byte: the announced tuple length is the ELEMENT count
+// @gen macro=ser_wide name=c17_serialize_u32 props=C17 quick=U0,0;U3,3 thorough=U1,1;U5,5
+macro_rules! ser_wide {
+    ($name:ident, $N:ty, $n:expr) => {
+        #[kani::proof]
+        #[kani::unwind(16)]
+        fn $name() {
+            let sa: [u32; $n] = kani::any();
+            let a: GenericArray<u32, $N> = GenericArray::from_array(sa);
+            let mut log = Log { ev: [Ev::None; 12], n: 0, fail_at: usize::MAX, elems: 0 };
+            let r = a.serialize(Rec(&mut log));
+            kani::assert(r.is_ok() && log.n == $n + 2, "C17.serialize(u32): one tuple header, N elements, end");
+            kani::assert(log.ev[0] == Ev::Tuple($n), "C17.serialize(u32): announces exactly N elements (not a byte count)");
+            let i: usize = kani::any();
+            if i < $n {
+                kani::assert(log.ev[1 + i] == Ev::U32(sa[i]), "C17.serialize(u32): element i written i-th");
+            }
+            // zero-sized elements: still N of them
+            let z: GenericArray<(), $N> = GenericArray::from_array([(); $n]);
+            let mut lz = Log { ev: [Ev::None; 12], n: 0, fail_at: usize::MAX, elems: 0 };
+            let rz = z.serialize(Rec(&mut lz));
+            kani::assert(rz.is_ok() && lz.ev[0] == Ev::Tuple($n) && lz.elems == $n, "C17.serialize(ZST): a tuple of exactly N (empty) elements");
             kani::cover!(true, "end reachable");
         }
     };
